@@ -41,12 +41,12 @@ theorem windowStep_ok (h : Handler σ) (c : Cfg) (fuel we : Nat) (s : Coord σ)
       · simp [hl] at hr
     · simp [hh] at hr
 
-/-- generic induction over the executable coordinator loop: an invariant `I b ps` preserved by
+/-- generic induction over the executable coordinator loop (every barrier is at or before the end time): an invariant `I b ps` preserved by
     every barrier the coordinator actually performs holds at the end, together with a
     postcondition `Q` established at both exits (all heaps empty / final pass at the end time) -/
-theorem coordLoop_inv (h : Handler σ) (c : Cfg) (fuel wEff endT : Nat)
+theorem coordLoop_inv' (h : Handler σ) (c : Cfg) (fuel wEff endT : Nat)
     (I : Nat → List (Part σ) → Prop) (Q : List (Part σ) → Prop)
-    (hstep : ∀ b we ps, I b ps → b ≤ we → we ≤ b + wEff → WindowOk h c fuel we ps →
+    (hstep : ∀ b we ps, I b ps → b ≤ we → we ≤ b + wEff → we ≤ endT → WindowOk h c fuel we ps →
       I we (oneWindow h c true fuel we ps))
     (hempty : ∀ ps : List (Part σ), ps.all (·.heap.isEmpty) = true → Q ps)
     (hfinal : ∀ ps, I endT ps → WindowOk h c fuel endT ps → Q (oneWindow h c true fuel endT ps)) :
@@ -66,7 +66,7 @@ theorem coordLoop_inv (h : Handler σ) (c : Cfg) (fuel wEff endT : Nat)
       have hce : s.cur = endT := by omega
       obtain ⟨hok, h2, h3⟩ := windowStep_ok h c fuel endT s hr
       rw [h2, h3]
-      exact ⟨hstep s.cur endT s.parts inv (by omega) (by omega) hok, hfinal s.parts (hce ▸ inv) hok⟩
+      exact ⟨hstep s.cur endT s.parts inv (by omega) (by omega) (Nat.le_refl _) hok, hfinal s.parts (hce ▸ inv) hok⟩
     · simp only [hend, if_false] at hr ⊢
       generalize hwe : (if s.cur + wEff > endT then endT else s.cur + wEff) = we at hr ⊢
       have hb : s.cur ≤ we := by subst hwe; split <;> omega
@@ -79,13 +79,28 @@ theorem coordLoop_inv (h : Handler σ) (c : Cfg) (fuel wEff endT : Nat)
         have h1' : (windowStep h c true fuel we s).err = none := by
           cases hx : (windowStep h c true fuel we s).err <;> simp_all
         obtain ⟨hok, hc, hp⟩ := windowStep_ok h c fuel we s h1'
-        have hI := hstep s.cur we s.parts inv hb hle hok
+        have hI := hstep s.cur we s.parts inv hb hle hwT hok
         split
         · rename_i hem
           refine ⟨by simpa [hc, hp] using hI, hempty _ (by simpa using hem)⟩
         · rename_i hne
           simp only [hne, Bool.false_eq_true, if_false] at hr
           exact ih _ (by simpa using h1') (by simpa [hc] using hwT) (by simpa [hc, hp] using hI) hr
+
+/-- generic induction over the executable coordinator loop: an invariant `I b ps` preserved by
+    every barrier the coordinator actually performs holds at the end, together with a
+    postcondition `Q` established at both exits (all heaps empty / final pass at the end time) -/
+theorem coordLoop_inv (h : Handler σ) (c : Cfg) (fuel wEff endT : Nat)
+    (I : Nat → List (Part σ) → Prop) (Q : List (Part σ) → Prop)
+    (hstep : ∀ b we ps, I b ps → b ≤ we → we ≤ b + wEff → WindowOk h c fuel we ps →
+      I we (oneWindow h c true fuel we ps))
+    (hempty : ∀ ps : List (Part σ), ps.all (·.heap.isEmpty) = true → Q ps)
+    (hfinal : ∀ ps, I endT ps → WindowOk h c fuel endT ps → Q (oneWindow h c true fuel endT ps)) :
+    ∀ (n : Nat) (s : Coord σ), s.err = none → s.cur ≤ endT → I s.cur s.parts →
+      (coordLoop h c true fuel wEff endT n s).err = none →
+      I (coordLoop h c true fuel wEff endT n s).cur (coordLoop h c true fuel wEff endT n s).parts
+      ∧ Q (coordLoop h c true fuel wEff endT n s).parts :=
+  coordLoop_inv' h c fuel wEff endT I Q (fun b we ps i hb hle _ ok => hstep b we ps i hb hle ok) hempty hfinal
 
 theorem coordLoop_safe (h : Handler σ) (c : Cfg) (fuel wEff endT : Nat) (hw : WindowLeLat c wEff)
     (n : Nat) (s : Coord σ) (he : s.err = none) (hcur : s.cur ≤ endT) (safe : Safe c s.cur s.parts)
